@@ -141,6 +141,11 @@ func genGraphs(rng *Rng, bigInts bool, stats *Stats) []genGraph {
 			}
 		}
 		nn := Pick(rng, []int{0, 1, 2, 3, 4, 5, 6, 8})
+		if gi > 0 && rng.Chance(1, 2) {
+			// every graph numbers its nodes and relationships from the start again: source ids are unique per graph only
+			nextNode, nextEdge = uint64(rng.Intn(3)), uint64(rng.Intn(3))
+			stats.Inc("graphs_restart_ids")
+		}
 		for i := 0; i < nn; i++ {
 			g.nodes = append(g.nodes, genNode{id: nextNode, kinds: genKinds(rng, c18Kinds), props: genProps(rng, bigInts)})
 			nextNode += uint64(1 + rng.Intn(4)*rng.Intn(3))
@@ -217,7 +222,7 @@ func sizesAround(counts ...int) []int {
 func (s c18Suite) Gen(rng *Rng, tier string, w *bufio.Writer, stats *Stats) {
 	nDB, perDB := 36, 14
 	if tier == "thorough" {
-		nDB, perDB = 220, 20
+		nDB, perDB = 100, 20
 	}
 	caseNo := 0
 	for d := 0; d < nDB; d++ {
@@ -273,10 +278,60 @@ func (s c18Suite) Gen(rng *Rng, tier string, w *bufio.Writer, stats *Stats) {
 			}
 			fmt.Fprintln(w, "loaded")
 			fmt.Fprintf(w, "verify %d\n", Pick(rng, sizes))
+			// the same dump, interrupted (crash at a random point, or a DB read error at a random fetch) and resumed,
+			// must load to the same graph
+			points := crashPointCount(graphs, c.shard)
+			if rng.Bool() {
+				fmt.Fprintf(w, "idump %s %d %d crash %d\n", c.codec, c.batch, c.shard, 1+rng.Intn(points+1))
+			} else {
+				fmt.Fprintf(w, "idump %s %d %d fault %d %d\n", c.codec, c.batch, c.shard, 1+rng.Intn(entityCount(graphs)+2), Pick(rng, []int{-1, 0, 1, 2}))
+			}
+			fmt.Fprintf(w, "load %d\n", Pick(rng, sizes))
+			fmt.Fprintln(w, "loaded")
+			fmt.Fprintf(w, "verify %d\n", Pick(rng, sizes))
+			stats.Inc("interrupted_dumps")
 			stats.Inc("cases")
 			stats.Inc("codec." + c.codec)
 		}
+		// every crash point of one configuration with more relationships than the shard size (when the database has them)
+		if d%6 == 0 || tier == "thorough" && d%5 == 0 {
+			caseNo++
+			fmt.Fprintf(w, "# case %d db=%d every-crash-point codec=none batch=2 shard=2\n", caseNo, d)
+			fmt.Fprintln(w, "reset")
+			emitGraphs(w, graphs)
+			for k := 1; k <= crashPointCount(graphs, 2)+1; k++ {
+				fmt.Fprintf(w, "idump none 2 2 crash %d\n", k)
+				fmt.Fprintln(w, "load 2")
+				fmt.Fprintln(w, "loaded")
+				stats.Inc("interrupted_dumps")
+			}
+			for f := 1; f <= entityCount(graphs)+1; f++ {
+				fmt.Fprintf(w, "idump none 2 2 fault %d %d\n", f, Pick(rng, []int{-1, 1}))
+				fmt.Fprintln(w, "load 3")
+				fmt.Fprintln(w, "loaded")
+				stats.Inc("interrupted_dumps")
+			}
+			stats.Inc("cases")
+		}
 	}
+}
+
+func entityCount(graphs []genGraph) int {
+	n := 0
+	for _, g := range graphs {
+		n += len(g.nodes) + len(g.edges)
+	}
+	return n
+}
+
+// crashPointCount: the number of crash points of an uninterrupted dump (see harness/c19.go).
+func crashPointCount(graphs []genGraph, shard int) int {
+	ceil := func(a, b int) int { return (a + b - 1) / b }
+	n := 1 + 2 + 3
+	for _, g := range graphs {
+		n += 6 + 5*(ceil(len(g.nodes), shard)+ceil(len(g.edges), shard)) + len(g.nodes) + len(g.edges)
+	}
+	return n
 }
 
 // ---------------------------------------------------------------- runner
@@ -321,6 +376,8 @@ func (r *c18Runner) Step(_ []string, raw string) string {
 		return "ok"
 	case len(t) == 4 && t[0] == "dump":
 		return r.dump(t)
+	case (len(t) == 6 || len(t) == 7) && t[0] == "idump":
+		return r.idump(t)
 	case len(t) == 2 && t[0] == "load":
 		return r.load(t)
 	case len(t) == 1 && t[0] == "loaded":
@@ -447,6 +504,65 @@ func (r *c18Runner) dumpObservation(m *retriever.Manifest) string {
 		}
 	}
 	return sb.String()
+}
+
+// idump: the dump interrupted once (crash at hook point k, or a DB read error at fetch f after m records) and
+// then resumed until it completes; answers like `dump`, or `stuck <class>` when the resume refuses for good.
+func (r *c18Runner) idump(t []string) string {
+	codec, ok := codecOf(t[1])
+	batch, e1 := strconv.Atoi(t[2])
+	shard, e2 := strconv.Atoi(t[3])
+	a, e3 := strconv.Atoi(t[5])
+	if !ok || e1 != nil || e2 != nil || e3 != nil || batch < 1 || shard < 1 || len(r.src.targets) == 0 {
+		return "bad-op"
+	}
+	r.files, r.manifest, r.dst, r.back = nil, nil, nil, nil
+	x := &c19Runner{stats: r.stats, src: r.src, codec: codec, batch: batch, shard: shard, hasOpts: true, dir: map[string][]byte{}}
+	if !x.wellFormed() {
+		return "bad-db"
+	}
+	var first string
+	switch {
+	case t[4] == "crash" && len(t) == 6:
+		first = x.Step(nil, fmt.Sprintf("crash %d", a))
+	case t[4] == "fault" && len(t) == 7:
+		m, err := strconv.Atoi(t[6])
+		if err != nil || a < 1 {
+			return "bad-op"
+		}
+		first = x.Step(nil, fmt.Sprintf("readfault %d %d", a, m))
+	default:
+		return "bad-op"
+	}
+	if strings.HasPrefix(first, "bad") {
+		return first
+	}
+	hasManifest := func() bool { _, ok := x.dir[retriever.ManifestFileName]; return ok }
+	for i := 0; i < 2 && !hasManifest(); i++ {
+		ans := strings.Fields(x.Step(nil, "resume 0"))
+		if len(ans) >= 2 && ans[0] == "refused" {
+			r.stats.Inc("idump.stuck." + ans[1])
+			return "stuck " + ans[1]
+		}
+	}
+	if !hasManifest() {
+		return "stuck unknown"
+	}
+	// a crash between the manifest rename and the checkpoint removal leaves a complete dump plus the stale checkpoint
+	if _, stale := x.dir[".retriever-checkpoint.json"]; stale {
+		delete(x.dir, ".retriever-checkpoint.json")
+		r.stats.Inc("idump.stale_checkpoint")
+	}
+	var onDisk retriever.Manifest
+	if json.Unmarshal(x.dir[retriever.ManifestFileName], &onDisk) != nil {
+		return "err manifest-unreadable"
+	}
+	r.files, r.manifest, r.codec, r.shard = x.dir, &onDisk, codec, shard
+	r.stats.Inc("idump.ok")
+	if r.obs {
+		return r.dumpObservation(&onDisk)
+	}
+	return r.dumpAnswer(&onDisk)
 }
 
 func (r *c18Runner) load(t []string) string {
